@@ -49,8 +49,8 @@ theorem cacheAfter_is_cache (cfg : Cfg) (hs : Conn → List Req) (us : Nat → L
   rw [cacheAfter_eq cfg cache σ.trace]; exact (snapInv_reach cfg hs us cache σ h).cur
 
 /-- `silent_after_deactivate` without the monitor: every update delivered to `c` for `m:p` is preceded by a request
-marker `activate s` of `c` with `s` covering `m:p`, and no positive reply of `c` to a request ending `s`
-(matching `deactivate`, `*IDN?`, disconnect) lies in between. -/
+marker `activate s` of `c` with `s` covering `m:p`, and no reply of `c` that ends `s` lies in between (`endsReply`:
+the positive reply to the matching `deactivate`; any reply to `*IDN?`; the end of a disconnect, successful or not). -/
 theorem silent_after_deactivate_explicit (cfg : Cfg) (hs : Conn → List Req) (us : Nat → List (Mod × Par × Entry))
     (cache : Mod → Par → Entry) (σ : State) (h : Reach cfg (init hs us cache) σ) : SilentExplicit σ.trace :=
   (silent_iff_explicit σ.trace).1 (silent_after_deactivate cfg hs us cache σ h)
@@ -67,8 +67,8 @@ theorem others_unaffected (cfg : Cfg) (σ σ' : State) (a : Act) : OthersUnaffec
   · rename_i c hc
     exact others_stepH cfg σ σ' c c' m p (by intro h; subst h; exact hne hc) hs
   · rename_i k hk
-    obtain ⟨_, _, _, _, f5, f6, f7, _⟩ := stepU_frame cfg σ σ' k a.arg hs
-    simp [listens, f5, f6, f7]
+    obtain ⟨_, _, _, _, f5, f6, _⟩ := stepU_frame cfg σ σ' k a.arg hs
+    simp [listens, f5, f6]
 
 /-- The lock discipline of the repaired code (`_lock` → `updateLock` → `_subscription_lock`) cannot
 deadlock: in no reachable state with an unfinished thread is every thread blocked. -/
@@ -83,6 +83,32 @@ theorem locks_exclusive (cfg : Cfg) (hs : Conn → List Req) (us : Nat → List 
     (cache : Mod → Par → Entry) (σ : State) (h : Reach cfg (init hs us cache) σ) : LockInv σ :=
   lockInv_reach cfg hs us cache σ h
 
+/-- The string tests of `Dispatcher.unsubscribe` (`':' in`, `startswith(f'{eventname}:')`, exact key) remove exactly the
+subscriptions the deactivation matches — for ALL names, in particular names that are string prefixes of one another
+(`T` / `T2`, `target` / `target_max`): a scope that is not matched keeps its table entry, nobody else's entry changes. -/
+theorem deactivate_exact (σ : State) (c : Conn) (d : Scope) (c' : Conn) (a : Scope) :
+    tableHas (unregister σ c d) c' a = (if c' = c ∧ cancels d a = true then false else tableHas σ c' a) :=
+  tableHas_unregister σ c d c' a
+
+/-- prefix-related specifiers are different scopes: deactivating the shorter one does not match the longer one -/
+theorem prefix_related_not_cancelled (m m' : Mod) (p p' : Par) :
+    (p ≠ p' → cancels (.par m p) (.par m p') = false) ∧
+    (m ≠ m' → cancels (.mod m) (.mod m') = false ∧ cancels (.mod m) (.par m' p) = false) := by
+  constructor
+  · intro h
+    have : ¬ p = p' := h
+    simp [cancels, this]
+  · intro h
+    have : ¬ m.val = m'.val := fun e => h (Subtype.ext e)
+    simp [cancels, this]
+
+/-- `*IDN?` and disconnect end every activation whatever the outcome of switching remote logging off (`Cfg.logFails`
+is universally quantified in `silent_after_deactivate`): the table is cleared before that call, so every entry of
+the connection is gone when the reply — positive or an error report — is sent. -/
+theorem reset_clears_before_logging (σ : State) (c : Conn) (a : Scope) :
+    tableHas (tableWrite σ c .ident) c a = false ∧ tableHas (tableWrite σ c .disconnect) c a = false :=
+  ⟨tableHas_write_ends σ c .ident a rfl, tableHas_write_ends σ c .disconnect a rfl⟩
+
 /-- Table fact the harness relies on to tell updates from replies in a connection's log: the reply names of
 `activate`, `deactivate`, `*IDN?` (regenerated from `frappy.protocol.messages` on every run) are distinct,
 none of them is the update message name, and none starts with the error prefix. -/
@@ -94,10 +120,15 @@ theorem reply_names_distinct :
 
 /-! ### non-vacuity: a concrete interleaving (one connection, one updater, the F16 schedule) -/
 
-def exCfg : Cfg := ⟨[0], fun _ => [0], [1]⟩
+def mT : Mod := ⟨['T'], by decide⟩
+def mT2 : Mod := ⟨['T', '2'], by decide⟩
+def pTarget : Par := ['t', 'a', 'r', 'g', 'e', 't']
+def pTargetMax : Par := pTarget ++ ['_', 'm', 'a', 'x']
+
+def exCfg : Cfg := ⟨[mT, mT2], fun _ => [pTarget, pTargetMax], [1], fun _ => false⟩
 def exInit : State :=
-  init (fun c => if c = 1 then [.activate (.par 0 0), .deactivate (.par 0 0)] else [])
-       (fun k => if k = 1 then [(0, 0, .val 7), (0, 0, .val 5)] else []) (fun _ _ => .val 0)
+  init (fun c => if c = 1 then [.activate (.par mT pTarget), .deactivate (.par mT pTarget)] else [])
+       (fun k => if k = 1 then [(mT, pTarget, .val 7), (mT, pTarget, .val 5)] else []) (fun _ _ => .val 0)
 
 /-- the updater stores 7 and has selected its listeners while the connection is active; the deactivation has
 to wait for the delivery -/
@@ -108,8 +139,8 @@ def exActs : List Act :=
    ⟨.h 1, 0⟩, ⟨.h 1, 0⟩, ⟨.h 1, 0⟩, ⟨.h 1, 0⟩, ⟨.h 1, 0⟩, ⟨.h 1, 0⟩]  -- snapshot, release, reply
 
 example : ((run exCfg exInit exActs).map (fun σ => σ.trace)) =
-    some [.reqStart 1 (.activate (.par 0 0)), .emit 1 0 0 (.val 7), .deliver 1 0 0 (.val 7), .emitDone 1,
-          .deliver 1 0 0 (.val 7), .reply 1 (.activate (.par 0 0)) true] := by decide
+    some [.reqStart 1 (.activate (.par mT pTarget)), .emit 1 mT pTarget (.val 7), .deliver 1 mT pTarget (.val 7), .emitDone 1,
+          .deliver 1 mT pTarget (.val 7), .reply 1 (.activate (.par mT pTarget)) true] := by decide
 
 example : ∃ σ, Reach exCfg exInit σ ∧ σ.trace.length = 6 ∧ finished σ (.h 1) = false := by
   cases h : run exCfg exInit exActs with
@@ -129,27 +160,51 @@ example : ((run exCfg exInit (exActs.take 6 ++ [⟨.h 1, 0⟩])).isSome) = false
 connection 1 stays activated, the updater's value 7 was emitted after the `active` reply, reached the
 connection, and is the last message it holds -/
 def exInit2 : State :=
-  init (fun c => if c = 1 then [.activate (.par 0 0)] else [])
-       (fun k => if k = 1 then [(0, 0, .val 7)] else []) (fun _ _ => .val 0)
+  init (fun c => if c = 1 then [.activate (.par mT pTarget)] else [])
+       (fun k => if k = 1 then [(mT, pTarget, .val 7)] else []) (fun _ _ => .val 0)
 
 def exActs2 : List Act :=
   (List.replicate 10 ⟨.h 1, 0⟩) ++ [⟨.u 1, 0⟩, ⟨.u 1, 0⟩, ⟨.u 1, 1⟩, ⟨.u 1, 0⟩, ⟨.u 1, 0⟩, ⟨.u 1, 0⟩, ⟨.h 1, 0⟩]
 
 example : ((run exCfg exInit2 exActs2).map (fun σ =>
-      (quietB σ.trace, coveredBy (firmAfter σ.trace 1) 0 0, lastDelivered σ.trace 1 0 0, σ.cache 0 0,
+      (quietB σ.trace, coveredBy (firmAfter σ.trace 1) mT pTarget, lastDelivered σ.trace 1 mT pTarget, σ.cache mT pTarget,
        finished σ (.h 1), finished σ (.u 1), σ.trace.length))) =
     some (true, true, some (.val 7), .val 7, true, true, 6) := by rfl
 
+/-- prefix-related parameters: connection 1 activates `T:target` and `T:target_max`, deactivates `T:target`; an update
+of `T:target_max` emitted afterwards still reaches it (the seeded `startswith(eventname)` mutant loses it) -/
+def exInit3 : State :=
+  init (fun c => if c = 1 then [.activate (.par mT pTarget), .activate (.par mT pTargetMax), .deactivate (.par mT pTarget)] else [])
+       (fun k => if k = 1 then [(mT, pTargetMax, .val 3)] else []) (fun _ _ => .val 0)
+
+example : ((run exCfg exInit3 ((List.replicate 26 (⟨.h 1, 0⟩ : Act)) ++
+      [⟨.u 1, 0⟩, ⟨.u 1, 0⟩, ⟨.u 1, 1⟩, ⟨.u 1, 0⟩, ⟨.u 1, 0⟩, ⟨.u 1, 0⟩, ⟨.h 1, 0⟩])).map (fun σ =>
+      (lastDelivered σ.trace 1 mT pTargetMax, listens σ 1 mT pTargetMax, listens σ 1 mT pTarget,
+       finished σ (.h 1), finished σ (.u 1)))) =
+    some (some (.val 3), true, false, true, true) := by rfl
+
+/-- remote logging broken: `*IDN?` is answered with an error report, the activation is gone all the same and the update
+emitted afterwards is not delivered -/
+def exCfgBroken : Cfg := ⟨[mT], fun _ => [pTarget], [1], fun _ => true⟩
+def exInit4 : State :=
+  init (fun c => if c = 1 then [.activate .all, .ident] else [])
+       (fun k => if k = 1 then [(mT, pTarget, .val 3)] else []) (fun _ _ => .val 0)
+
+example : ((run exCfgBroken exInit4 ((List.replicate 16 (⟨.h 1, 0⟩ : Act)) ++
+      [⟨.u 1, 0⟩, ⟨.u 1, 0⟩, ⟨.u 1, 0⟩, ⟨.u 1, 0⟩, ⟨.u 1, 0⟩, ⟨.h 1, 0⟩])).map (fun σ =>
+      (σ.trace.drop 3, listens σ 1 mT pTarget, finished σ (.h 1), finished σ (.u 1)))) =
+    some ([.reqStart 1 .ident, .reply 1 .ident false, .emit 1 mT pTarget (.val 3), .emitDone 1], false, true, true) := by rfl
+
 /-- the monitors are not trivially true: the pinned tree's log `update 7, inactive, update 5` is rejected … -/
 example : silentMon.accepts
-    [.reqStart 1 (.activate (.par 0 0)), .deliver 1 0 0 (.val 0), .reply 1 (.activate (.par 0 0)) true,
-     .deliver 1 0 0 (.val 7), .reqStart 1 (.deactivate (.par 0 0)), .reply 1 (.deactivate (.par 0 0)) true,
-     .deliver 1 0 0 (.val 5)] = false := by decide
+    [.reqStart 1 (.activate (.par mT pTarget)), .deliver 1 mT pTarget (.val 0), .reply 1 (.activate (.par mT pTarget)) true,
+     .deliver 1 mT pTarget (.val 7), .reqStart 1 (.deactivate (.par mT pTarget)), .reply 1 (.deactivate (.par mT pTarget)) true,
+     .deliver 1 mT pTarget (.val 5)] = false := by decide
 
 /-- … and the same log with the late update before the `inactive` reply is accepted -/
 example : silentMon.accepts
-    [.reqStart 1 (.activate (.par 0 0)), .deliver 1 0 0 (.val 0), .reply 1 (.activate (.par 0 0)) true,
-     .deliver 1 0 0 (.val 7), .reqStart 1 (.deactivate (.par 0 0)), .deliver 1 0 0 (.val 5),
-     .reply 1 (.deactivate (.par 0 0)) true] = true := by decide
+    [.reqStart 1 (.activate (.par mT pTarget)), .deliver 1 mT pTarget (.val 0), .reply 1 (.activate (.par mT pTarget)) true,
+     .deliver 1 mT pTarget (.val 7), .reqStart 1 (.deactivate (.par mT pTarget)), .deliver 1 mT pTarget (.val 5),
+     .reply 1 (.deactivate (.par mT pTarget)) true] = true := by decide
 
 end Frappy.Props.C08
